@@ -3,6 +3,9 @@
 // Built with -fsanitize=thread; every ThreadSanitizer report is a violation (the driver parses the log).
 // Post-join oracles: per-thread results equal the single-threaded results; blocks from the shared pool are
 // disjoint and intact.
+#include <sys/wait.h>
+#include <unistd.h>
+
 #include <atomic>
 #include <thread>
 
@@ -16,7 +19,8 @@ using namespace sonic_json;
 
 static vf::Counter c_runs("thread-team-runs"), c_threads("threads-started"), c_ops("operations-performed"), c_inter("distinct-interleaving-prefixes(first 48 tickets)"),
     c_w1("W1:own-documents(parse,mutate,serialize,on-demand,UpdateLazy,ParseSchema)"), c_w2("W2:shared-read-only-document"), c_w2_missing("W2:operator[]-on-missing-key"),
-    c_w2_map("W2:shared-document-with-lookup-map"), c_w3("W3:shared-pool-by-reference(locked)"), c_w3_docs("W3:documents-on-the-shared-pool"), c_w3_copies("W3b:shared-pool-through-handle-copies(locked)");
+    c_w2_map("W2:shared-document-with-lookup-map"), c_w3("W3:shared-pool-by-reference(locked)"), c_w3_docs("W3:documents-on-the-shared-pool"), c_w3_copies("W3b:shared-pool-through-handle-copies(locked)"),
+    c_w0("W0:cold-start-teams(first library use in a fresh process is concurrent)");
 
 // global ticket counter: which thread performed the k-th operation (evidence of interleaving diversity)
 static std::atomic<uint64_t> g_ticket{0};
@@ -76,7 +80,10 @@ static uint64_t w1_thread_work(uint64_t seed, unsigned tid, bool tickets) {
     // on-demand + lazy update + schema on private buffers
     StringView target;
     JsonPointer jp;
-    if (d.IsObject() && d.Size()) jp.push_back(JsonPointerNode(std::string(d.MemberBegin()->name.GetStringView().data(), d.MemberBegin()->name.Size())));
+    if (d.IsObject() && d.Size()) {  // the last key: the scanner walks over (and decodes) every key before it
+      auto last = d.MemberBegin() + (d.Size() - 1);
+      jp.push_back(JsonPointerNode(std::string(last->name.GetStringView().data(), last->name.Size())));
+    }
     ParseResult pr = GetOnDemand(StringView(dump.data(), dump.size()), jp, target);
     digest = vf::hash_combine(digest, (uint64_t)pr.Error() * 1000003 + target.size());
     if (tickets) ticket(tid);
@@ -102,11 +109,12 @@ static void w1(uint64_t i, vf::Rng& r) {
   vf::note("W1 own documents");
   vf::witness("W1: " + std::to_string(T) + " threads, each parse/mutate/serialise/on-demand/UpdateLazy/ParseSchema on 12 own documents, work seed " + std::to_string(seed));
   std::vector<uint64_t> expect(T), got(T);
-  for (unsigned t = 0; t < T; t++) expect[t] = w1_thread_work(seed, t, false);  // single-threaded reference
   reset_tickets();
   std::vector<std::thread> th;
   for (unsigned t = 0; t < T; t++) th.emplace_back([&, t] { got[t] = w1_thread_work(seed, t, true); });
   for (auto& x : th) x.join();
+  // single-threaded reference AFTER the team: whatever the library initialises on first use is first used concurrently
+  for (unsigned t = 0; t < T; t++) expect[t] = w1_thread_work(seed, t, false);
   c_threads.add(T);
   account_interleaving(T * 12 * 4);
   for (unsigned t = 0; t < T; t++)
@@ -173,8 +181,6 @@ static void w2(uint64_t i, vf::Rng& r) {
   twin.Parse(text.data(), text.size());
   const su::PoolDoc& cs = shared;
   const su::PoolDoc& ct = twin;
-  uint64_t expect = read_everything(static_cast<const su::PoolNode&>(cs), 0, false);
-  std::string expect_dump = cs.Dump();
   reset_tickets();
   std::vector<uint64_t> got(T);
   std::vector<std::string> dumps(T);
@@ -195,6 +201,9 @@ static void w2(uint64_t i, vf::Rng& r) {
       }
     });
   for (auto& x : th) x.join();
+  // reference values after the team (the shared document is const throughout)
+  uint64_t expect = read_everything(static_cast<const su::PoolNode&>(cs), 0, false);
+  std::string expect_dump = cs.Dump();
   c_threads.add(T);
   account_interleaving(T * 3 * 8);
   for (unsigned t = 0; t < T; t++) {
@@ -202,6 +211,149 @@ static void w2(uint64_t i, vf::Rng& r) {
     if (dumps[t] != expect_dump) vf::violation("W2:reader-serialised-different-text", "thread " + std::to_string(t));
     if (!eqs[t]) vf::violation("W2:equality-or-pointer-lookup-wrong", "thread " + std::to_string(t));
   }
+}
+
+// ------------------------------------------------------------------ W0: cold start
+// A forked child starts a team at once: every thread performs the same operations in the same order, so whatever the
+// library sets up on first use (tables, caches, statics) is first used by all threads together.  The operation that
+// comes first rotates with the case index.  ThreadSanitizer reports of the child arrive on the shared stderr and make
+// it exit with 66; the parent then exits with 66 after its workload so that the driver reads the report blocks.
+static bool g_child_reports = false;
+static uint64_t cold_ops(uint64_t seed, unsigned rot) {
+  vf::Rng r(seed, 99, 0);
+  static const char* kText =
+      "{\"pl\\u0061in\":\"a\\nb\\\"c\\\\d\\u00e9\\ud83d\\ude00\",\"esc\\tkey\":[1,-2,3.25,1e300,0.1,123456789012345678901234567890,18446744073709551615,-9223372036854775808,"
+      "2.2250738585072011e-308,1.7976931348623157e308],\"obj\":{\"k\\/1\":null,\"k2\":true,\"k3\":false,\"k4\":{\"deep\":[[],{}]}},"
+      "\"long\":\"0123456789abcdef0123456789abcdef0123456789abcdef0123456789abcdef\\r\\n\",\"last\\b\":\"\\u0001\"}";
+  std::string text = kText;
+  uint64_t h = 0;
+  for (unsigned step = 0; step < 7; step++) {
+    switch ((step + rot) % 7) {
+      case 0: {  // Parse + Dump (decode escapes, quote them again, numbers both ways)
+        su::PoolDoc d;
+        d.Parse(text.data(), text.size());
+        h = vf::hash_combine(h, (uint64_t)d.GetParseError());
+        if (!d.HasParseError()) h = vf::hash_str(d.Dump(), h);
+        break;
+      }
+      case 1: {  // API-built document with strings needing every escape, serialised
+        su::SimpleDoc d;
+        d.SetObject();
+        std::string k, v;
+        for (int c = 0; c < 0x30; c++) v += (char)c;
+        v += "\"\\\x7f\xc3\xa9";
+        k = "key\n\"";
+        d.AddMember(StringView(k), su::SimpleNode(v.data(), v.size(), d.GetAllocator()), d.GetAllocator());
+        d.AddMember("dbl", su::SimpleNode(r.coin() ? 5e-324 : 0.3), d.GetAllocator());
+        WriteBuffer wb;
+        h = vf::hash_combine(h, (uint64_t)d.Serialize(wb));
+        h = vf::hash_bytes(wb.ToString(), wb.Size(), h);
+        break;
+      }
+      case 2: {  // on-demand to the last key, walking over escaped keys
+        JsonPointer jp;
+        jp.push_back(JsonPointerNode(std::string("last\b")));
+        StringView target;
+        ParseResult pr = GetOnDemand(StringView(text.data(), text.size()), jp, target);
+        h = vf::hash_combine(h, (uint64_t)pr.Error() * 7919 + target.size());
+        JsonPointer jp2;
+        jp2.push_back(JsonPointerNode(std::string("obj")));
+        jp2.push_back(JsonPointerNode(std::string("k4")));
+        jp2.push_back(JsonPointerNode(std::string("deep")));
+        jp2.push_back(JsonPointerNode(1));
+        pr = GetOnDemand(StringView(text.data(), text.size()), jp2, target);
+        h = vf::hash_combine(h, (uint64_t)pr.Error() * 7919 + target.size());
+        break;
+      }
+      case 3: {  // UpdateLazy with keys spelled differently on the two sides
+        std::string m = UpdateLazy(StringView(text.data(), text.size()), StringView("{\"plain\":{\"x\":1},\"obj\":{\"k\\u002f1\":[1]},\"new\":2}"));
+        h = vf::hash_str(m, h);
+        break;
+      }
+      case 4: {  // ParseSchema
+        su::SimpleDoc d;
+        d.Parse("{\"plain\":null,\"obj\":{\"k2\":null,\"k4\":{}},\"esc\\tkey\":[],\"absent\":1}");
+        d.ParseSchema(text.data(), text.size());
+        h = vf::hash_str(d.HasParseError() ? std::string("err") : d.Dump(), h);
+        break;
+      }
+      case 5: {  // lookup map, lookups, pointer, equality
+        su::PoolDoc d, e;
+        d.Parse(text.data(), text.size());
+        e.Parse(text.data(), text.size());
+        if (!d.HasParseError() && d.IsObject()) {
+          d.CreateMap(d.GetAllocator());
+          h = vf::hash_combine(h, (uint64_t)(d.FindMember("obj") - d.MemberBegin()));
+          h = vf::hash_combine(h, d["nope"].IsNull());
+          h = vf::hash_combine(h, d.AtPointer("obj", "k4", "deep", 0) != nullptr);
+          h = vf::hash_combine(h, d == e);
+        }
+        break;
+      }
+      default: {  // an invalid text: error path, error formatting
+        su::PoolDoc d;
+        d.Parse("{\"a\":[1,2,}");
+        h = vf::hash_combine(h, (uint64_t)d.GetParseError() * 31 + d.GetErrorOffset());
+        h = vf::hash_str(ErrorMsg(d.GetParseError()), h);
+      }
+    }
+  }
+  return h;
+}
+
+static void w0(uint64_t i, vf::Rng& r) {
+  c_w0.add();
+  c_runs.add();
+  vf::eval();
+  unsigned T = nthreads(r), rot = (unsigned)(i % 7);
+  uint64_t seed = r.next();
+  vf::distinct(vf::hash_combine(seed, rot));
+  vf::note("W0 cold start");
+  vf::witness("W0: forked child, " + std::to_string(T) + " threads released together, same 7 operations each, first operation #" + std::to_string(rot));
+  fflush(nullptr);
+  pid_t pid = fork();
+  if (pid < 0) {
+    vf::count("harness:fork-failed");
+    return;
+  }
+  if (pid == 0) {
+    alarm(60);
+    std::atomic<unsigned> ready{0};
+    std::atomic<bool> go{false};
+    std::vector<uint64_t> got(T);
+    std::vector<std::thread> th;
+    for (unsigned t = 0; t < T; t++)
+      th.emplace_back([&, t] {
+        ready.fetch_add(1);
+        while (!go.load(std::memory_order_acquire)) {
+        }
+        got[t] = cold_ops(seed, rot);
+      });
+    while (ready.load() < T) {
+    }
+    go.store(true, std::memory_order_release);
+    for (auto& x : th) x.join();
+    uint64_t ref = cold_ops(seed, rot);
+    for (unsigned t = 0; t < T; t++)
+      if (got[t] != ref) {
+        fprintf(stderr, "W0 child: thread %u computed %016lx, single-threaded run %016lx\n", t, (unsigned long)got[t], (unsigned long)ref);
+        _exit(3);
+      }
+    _exit(0);  // ThreadSanitizer turns this into 66 when it has printed reports
+  }
+  int st = 0;
+  while (waitpid(pid, &st, 0) < 0 && errno == EINTR) {
+  }
+  c_threads.add(T);
+  c_ops.add(T * 7);
+  if (WIFEXITED(st) && WEXITSTATUS(st) == 0) return;
+  if (WIFEXITED(st) && WEXITSTATUS(st) == 66) {
+    g_child_reports = true;
+    return;
+  }
+  if (WIFEXITED(st) && WEXITSTATUS(st) == 3) vf::violation("W0:cold-start-thread-result-differs-from-single-threaded", "first operation #" + std::to_string(rot) + ", " + std::to_string(T) + " threads");
+  else if (WIFSIGNALED(st) && WTERMSIG(st) == SIGALRM) vf::violation("W0:cold-start-team-hung", "first operation #" + std::to_string(rot));
+  else vf::violation("W0:cold-start-child-died", "wait status " + std::to_string(st) + ", first operation #" + std::to_string(rot));
 }
 
 // ------------------------------------------------------------------ W3: one pool shared by reference (locked allocator build)
@@ -287,6 +439,7 @@ static void w3(uint64_t i, vf::Rng& r) {
       for (unsigned k = 0; k < 60; k++) s += (k ? "," : "") + std::to_string(t * 1000 + k);
       expect[t] = s + ",{\"t\":\"" + std::string(40, (char)('a' + t % 26)) + "\"}]";
     }
+    std::vector<int> parsed_bad(T, 0);
     std::vector<std::thread> th;
     for (unsigned t = 0; t < T; t++)
       th.emplace_back([&, t] {
@@ -299,11 +452,19 @@ static void w3(uint64_t i, vf::Rng& r) {
         o.AddMember("t", su::PoolNode(sv.data(), sv.size(), pool), pool);
         d.PushBack(std::move(o), pool);
         out[t] = d.Dump();
+        // and a document parsed (then re-parsed) on the same shared pool: string buffers and nodes come from it too
+        su::PoolDoc p(&pool);
+        p.Parse(expect[t].data(), expect[t].size());
+        if (p.HasParseError() || p.Dump() != expect[t]) parsed_bad[t] = 1;
+        p.Parse(expect[(t + 1) % T].data(), expect[(t + 1) % T].size());
+        if (p.HasParseError() || p.Dump() != expect[(t + 1) % T]) parsed_bad[t] = 1;
       });
     for (auto& x : th) x.join();
     c_threads.add(T);
     for (unsigned t = 0; t < T; t++)
       if (out[t] != expect[t]) vf::violation("W3:document-on-shared-pool-corrupted", "thread " + std::to_string(t) + ": " + vf::printable(out[t], 120));
+    for (unsigned t = 0; t < T; t++)
+      if (parsed_bad[t]) vf::violation("W3:document-parsed-on-shared-pool-corrupted", "thread " + std::to_string(t));
   }
 }
 
@@ -324,6 +485,7 @@ static void w3b(uint64_t, vf::Rng& r) {
 
 int main(int argc, char** argv) {
   std::vector<vf::Stream> S;
+  S.push_back({"W0_cold_start", 56, 700, w0});
   S.push_back({"W1_own_documents", 48, 800, w1});
   S.push_back({"W2_shared_readonly", 64, 800, w2});
 #ifdef SONIC_LOCKED_ALLOCATOR
@@ -331,5 +493,7 @@ int main(int argc, char** argv) {
   S.push_back({"W3b_shared_pool_handle_copies", 16, 200, w3b});
 #endif
   vf::args().case_timeout = 40;  // a team run takes well under a second; stuck threads are a finding, not a wait
-  return vf::run(argc, argv, S);
+  int rc = vf::run(argc, argv, S);
+  if (rc == 0 && g_child_reports) return 66;
+  return rc;
 }
